@@ -308,9 +308,10 @@ class Model:
                     after = snapshot(nodes)
                     diff = snap_diff(snap, after, nodes)
                 if diff:
-                    groups = sorted({group_of(what) for i, what in diff})
+                    groups = sorted({f"{pre['roles'].get(i, 'other')}:{group_of(what)}" for i, what in diff})
                     sig = f"C19|{op_family(op)}|{errname}|{pre['ids']}|" + "+".join(groups)
-                    rec.violation(sig, case, f"rejected {op[0]} ({errname}) changed pre-existing nodes: " + "; ".join(f"node#{i} {what}" for i, what in diff[:6]))
+                    rec.violation(sig, case, f"rejected {op[0]} ({errname}) changed pre-existing nodes: " + "; ".join(f"node#{i} {what}" for i, what in diff[:6]),
+                                  instance=_inst(self.universe, hist, op, sig, sorted(diff)))
             return "prune"  # a rejected operation changes nothing: no new state
         # successful operation
         if two_positions(w):
@@ -321,7 +322,8 @@ class Model:
             errs = invariant(w)
             errs += postconditions(w, op, nodes, pre)
             for kind, msg in errs:
-                rec.violation(f"C18|{op_family(op)}|{pre['ids']}|{kind}", case, msg)
+                sg = f"C18|{op_family(op)}|{pre['ids']}|{kind}"
+                rec.violation(sg, case, msg, instance=_inst(self.universe, hist, op, sg, msg))
             if errs:
                 return "viol"
         return "ok"
@@ -349,8 +351,27 @@ def precondition_facts(op, nodes):
                 aliased = True
     involved = [nodes[i] for i in op[1:] if isinstance(i, int) and not isinstance(i, bool) and op[0] != "drop" and i < len(nodes)]
     recv = involved[0] if involved and not op[0].startswith("mk") else None
-    return {"ids": "aliased" if aliased else "plain",
+    # roles of the pre-existing nodes in this call: the receiver, its proper descendants, the arguments with their
+    # subtrees, everything else ("registry" pseudo-node -1 is always 'other')
+    roles = {}
+    index_of = {id(n): i for i, n in enumerate(nodes)}
+    args = involved[1:] if recv is not None else involved
+    for a in args:
+        for x in subtree(a):
+            roles[index_of[id(x)]] = "arg"
+    if recv is not None:
+        for x in subtree(recv):
+            roles.setdefault(index_of[id(x)], "recv-sub")
+        roles[index_of[id(recv)]] = "recv"
+    return {"ids": "aliased" if aliased else "plain", "roles": roles,
             "receiver_attached_root": bool(recv is not None and not recv.detached and recv.parent is None)}
+
+
+def _inst(universe, hist, op, sig, detail):
+    """Identity of one violating instance: the exact history and what exactly deviated."""
+    import hashlib
+
+    return hashlib.blake2b(repr((universe, tuple(hist), tuple(op), sig, detail)).encode(), digest_size=7).hexdigest()
 
 
 def op_family(op):
